@@ -1114,15 +1114,21 @@ class ChannelFileRead(ChannelFile):
             self._buffer = self._buffer[n:]
         return ret
 
+    @staticmethod
+    def _newline(data):
+        # items of a channel file may be text or bytes
+        return b"\n" if isinstance(data, bytes) else "\n"
+
     def readline(self) -> str:
         if self._buffer is not None:
-            i = self._buffer.find("\n")
+            i = self._buffer.find(self._newline(self._buffer))
             if i != -1:
                 return self.read(i + 1)
             line = self.read(len(self._buffer) + 1)
         else:
             line = self.read(1)
-        while line and line[-1] != "\n":
+        newline = self._newline(line)
+        while line and line[-1:] != newline:
             c = self.read(1)
             if not c:
                 break
